@@ -59,7 +59,13 @@ fn replay(path: &str, opts: &Opts) {
     let mut rep = Report::new("replay", "");
     let mut proto = vec![];
     let mut outs = vec![];
-    if lines.iter().any(|l| l.starts_with("tvcfg")) {
+    if lines.iter().any(|l| l.starts_with("tpcfg")) {
+        // C16: the scenario is rebuilt from its description
+        if let Some((line, answer)) = fam::transpose::replay(&lines) {
+            proto.push(line);
+            outs.push(answer);
+        }
+    } else if lines.iter().any(|l| l.starts_with("tvcfg")) {
         // C18: the whole scenario (script, protection, save, edit, reload) is re-run
         if let Some((line, answer)) = fam::validation::replay(&lines) {
             proto.push(line);
